@@ -272,6 +272,119 @@ func c13Inputs(c *fw.Ctx, i int, s *srv.Server, bgName string) []c13Input {
 			addTcp("rtsp/announce-sdp-mutated", s.RtspAddr(), b)
 		}
 	case 1: // RTSP interleaved RTP/RTCP bodies on every channel, before/after SETUP
+		// an RTSP player that stays attached without having been served a key frame (DESCRIBE+SETUP, no
+		// PLAY) while publishers of its stream come and go: RTP that arrives when the stream has no
+		// description (publisher gone / next publisher not described yet) must not hurt
+		wname := name + "_w"
+		rtpOf := func(seq int, nalType byte) []byte {
+			return ref.BuildRtp(ref.RtpPkt{PT: 96, Seq: uint16(seq), Ts: uint32(seq * 3000), Ssrc: 7, Marker: true, Payload: append([]byte{nalType}, rb(40)...)})
+		}
+		waiter := func(s *srv.Server) *ref.RtspClient {
+			rc, err := ref.DialRtsp(s.RtspAddr(), 3*time.Second)
+			if err != nil {
+				return nil
+			}
+			rc.User, rc.Pass = "verif", "pa:ss" // half of the children run with RTSP authentication on
+			if _, err := rc.Prepare(url(wname), false, 3*time.Second); err != nil {
+				rc.Close()
+				return nil
+			}
+			c.Count("waiting_players_attached", 1)
+			return rc
+		}
+		for _, udp := range []bool{true, false} {
+			udp := udp
+			out = append(out, c13Input{Class: fmt.Sprintf("rtsp/waiting-player/publisher-leaves-under-rtp/udp=%v", udp), Desc: "publisher announces, a player attaches without PLAY, the publisher closes its command connection while its RTP is still arriving; 4 rounds",
+				Run: func(s *srv.Server) error {
+					var w *ref.RtspClient
+					defer func() {
+						if w != nil {
+							w.Close()
+						}
+					}()
+					for round := 0; round < 4; round++ {
+						pc, err := ref.DialRtsp(s.RtspAddr(), 3*time.Second)
+						if err != nil {
+							return err
+						}
+						if pc.Announce(url(wname), goodSdp(r), 2, []string{"streamid=0", "streamid=1"}, udp, 3*time.Second) != nil {
+							pc.Close()
+							continue
+						}
+						send := func(seq int, t byte) {
+							if udp {
+								pc.SendUdp(0, false, rtpOf(seq, t))
+							} else {
+								pc.SendInterleaved(0, rtpOf(seq, t))
+							}
+						}
+						for q := 0; q < 5; q++ {
+							send(q, 0x41)
+						}
+						if w == nil {
+							w = waiter(s)
+						}
+						stop := make(chan struct{})
+						done := make(chan struct{})
+						go func() {
+							defer close(done)
+							for q := 5; ; q++ {
+								select {
+								case <-stop:
+									return
+								default:
+								}
+								send(q, 0x41)
+								if q%16 == 0 {
+									time.Sleep(200 * time.Microsecond)
+								}
+							}
+						}()
+						time.Sleep(time.Duration(20+round*15) * time.Millisecond)
+						pc.CloseCommandOnly()
+						time.Sleep(60 * time.Millisecond)
+						close(stop)
+						<-done
+						pc.Close()
+						time.Sleep(30 * time.Millisecond)
+					}
+					return nil
+				}})
+		}
+		out = append(out, c13Input{Class: "rtsp/waiting-player/next-publisher-pipelines-rtp", Desc: "a player stays attached (no PLAY) after its publisher left; the next publisher sends ANNOUNCE and interleaved RTP in one segment",
+			Run: func(s *srv.Server) error {
+				pc, err := ref.DialRtsp(s.RtspAddr(), 3*time.Second)
+				if err != nil {
+					return err
+				}
+				if pc.Announce(url(wname), goodSdp(r), 2, []string{"streamid=0", "streamid=1"}, false, 3*time.Second) != nil {
+					pc.Close()
+					return nil
+				}
+				for q := 0; q < 5; q++ {
+					pc.SendInterleaved(0, rtpOf(q, 0x41))
+				}
+				w := waiter(s)
+				pc.Close()
+				time.Sleep(80 * time.Millisecond)
+				for round := 0; round < 6; round++ {
+					var b []byte
+					b = append(b, rtspReq("ANNOUNCE", url(wname), 1, []string{"Content-Type: application/sdp"}, goodSdp(r))...)
+					for q := 0; q < 20; q++ {
+						b = append(b, dollar(0, rtpOf(q, 0x41))...)
+					}
+					b = append(b, rtspReq("SETUP", url(wname)+"/streamid=0", 2, []string{"Transport: RTP/AVP/TCP;unicast;interleaved=0-1;mode=record"}, nil)...)
+					b = append(b, rtspReq("RECORD", url(wname), 3, nil, nil)...)
+					for q := 20; q < 40; q++ {
+						b = append(b, dollar(0, rtpOf(q, 0x41))...)
+					}
+					tcpScript(s.RtspAddr(), b)
+				}
+				if w != nil {
+					w.Close()
+				}
+				return nil
+			}})
 		pk := c13RtpPackets(r)
 		for _, stage := range []int{0, 1, 2, 3} {
 			var b []byte
@@ -775,6 +888,7 @@ func init() {
 		},
 		CaseTimeout: func(string) time.Duration { return 10 * time.Minute },
 		Rule: "sub-inputs per surface against the whole in-process server: RTSP command connection (ANNOUNCE with ≈250 mutated SDP bodies — clock rates 0/1/999/2^31, removed/duplicated lines, truncations, broken sprop/config/fmtp —, interleaved `$` frames with hostile RTP/RTCP bodies on every channel before/after SETUP/RECORD and from players, method sequences out of order with 14 Transport header variants, three Transport headers cut at every offset, Authorization headers cut at every offset (half of the child processes run the server with RTSP Digest authentication on), request lines × URIs × header oddities, raw bytes), UDP datagrams (RTP with padding/CSRC/extension/STAP/FU/AU-header extremes, truncated at every offset, RTCP SR truncated at every offset) to the RTP/RTCP ports of live UDP pub and sub sessions, GB28181 PS bodies (valid PS truncated/bit-mutated, every start code with short tails) over UDP and TCP framing, HTTP requests to the FLV/TS/HLS listener (path × Upgrade × version oddities) and every HTTP-API endpoint with malformed/typed-wrong JSON, WebSocket-RTSP / WebSocket-FLV frames (64-bit lengths, masks, opcodes, truncated handshakes), and scripted upstream replies while lal is RTMP pull / RTSP pull / HTTP-FLV pull client. " +
+			"an RTSP player kept attached without PLAY while UDP / interleaved publishers of its stream leave with RTP still arriving, and while the next publisher pipelines RTP behind its ANNOUNCE; " +
 			"monitors: process liveness (crash signature + resumption after the crashing input) and a canary (RTMP publish+play and an RTSP DESCRIBE of a background stream) after every group. cell = surface/input class.",
 		Assumptions: []string{"an error reply, a closed session or a kept-open session are all fine; only process death / failing canary is judged"},
 		MinCells: 12,
